@@ -6,5 +6,6 @@ CONSTANTS
   Elem = {}
   AsBuilt = {"stamp_keeps_self_replica"}
   Kinds = {"lww", "hash", "gcounter", "pncounter", "gset", "orset"}
+  CausalModes = {FALSE}
 INVARIANT TraceInv
 CHECK_DEADLOCK FALSE
